@@ -258,8 +258,11 @@ def ceil(index, rep, flow):
     rep.check(ok, rule, "round2:max_feed = feed eaten by that herd", "the feed ceiling is not the feed the round-2 herd used", loc=loc(PARAMS, fn),
               detail=str(sorted(org)) if st else "")
     im = index.func(PARAMS, "Parameters.init_meat_and_dairy_and_feed_from_breeding")
-    fu = [s for s in im.body if isinstance(s, ast.Assign) and norm_src(s.targets[0]) == "feed_used"]
-    rep.check(len(fu) == 1 and norm_src(fu[0].value) == "feed_and_biofuels_class.create_feed_food_from_kcals(feed_meat_object.feed_used)", rule,
+    IP = [a.arg for a in im.args.args]
+    rets_im = [r for r in im.body if isinstance(r, ast.Return) and isinstance(r.value, ast.Tuple)]
+    slot0 = Inliner(im).src(rets_im[-1].value.elts[0]) if rets_im else ""
+    # slot 0 of what the function returns (the feed charged) is create_feed_food_from_kcals(<herd object parameter>.feed_used)
+    rep.check(len(IP) > 3 and slot0 == f"{IP[3]}.create_feed_food_from_kcals({IP[2]}.feed_used)", rule,
               "feed_used = herd.feed_used", "feed_used is no longer the herd object's feed_used series", loc=loc(PARAMS, im))
     rep.require_min(rule, 4)
 
@@ -283,8 +286,11 @@ def pin(index, rep, flow):
     rep.check(okc, rule, "round2:uses-round2-constants",
               f"round 2 is not solved with (constants, monthly constants) returned by compute_parameters_second_round: {[a[:70] for a in args]}", loc=loc(RUN, call[0]))
     ro = index.func(RUN, "ScenarioRunner.run_optimizer")
-    c2 = [c for c in walk_no_nested(ro) if isinstance(c, ast.Call) and dotted(c.func) == "optimizer.optimize_feed_to_animals"]
-    ok = len(c2) == 1 and [norm_src(a) for a in c2[0].args] == ["consts_for_optimizer", "time_consts", "min_human_food_consumption"]
+    c2 = [c for c in walk_no_nested(ro) if isinstance(c, ast.Call) and isinstance(c.func, ast.Attribute) and c.func.attr == "optimize_feed_to_animals"]
+    RP = [a.arg for a in ro.args.args]
+    hand = [p_ for p_ in RP if "min_human" in p_ or "human_food" in p_]
+    ok = len(c2) == 1 and len(hand) == 1 and [norm_src(a) for a in c2[0].args] == [RP[1], RP[2], hand[0]] and \
+        Inliner(ro).src(c2[0].func.value) == f"Optimizer({RP[1]}, {RP[2]})"
     rep.check(ok, rule, "run_optimizer:passes-hand-off", "run_optimizer does not pass the hand-off to optimize_feed_to_animals", loc=loc(RUN, ro))
     of = index.func(OPT, "Optimizer.optimize_feed_to_animals")
     st = [s for s in of.body if isinstance(s, ast.Assign) and norm_src(s.targets[0]) == "self.time_consts['min_human_food_consumption']"]
